@@ -788,6 +788,25 @@ _MISSING = object()
 EXT_MODULES = ("pycsugar", "enigma_csp", "cspuz_core")
 
 
+def patch_subproc(sp, fake):
+    """Put the fake behind every binding through which cspuz.backend._subproc can reach the
+    subprocess machinery: the `subprocess` module attribute and, should a refactor import them
+    directly, the names run / Popen / PIPE / TimeoutExpired.  Returns what unpatch() needs."""
+    saved = []
+    for name in ("subprocess", "run", "Popen", "PIPE", "TimeoutExpired"):
+        if hasattr(sp, name):
+            saved.append((sp, name, getattr(sp, name)))
+            setattr(sp, name, fake if name == "subprocess" else getattr(fake, name))
+    if not saved:
+        raise RuntimeError("cspuz.backend._subproc exposes none of subprocess / run / Popen: the process seam is gone")
+    return saved
+
+
+def unpatch(saved):
+    for obj, name, val in reversed(saved):
+        setattr(obj, name, val)
+
+
 @contextlib.contextmanager
 def installed_peer(peer, recorder=None, modules=EXT_MODULES, psutil=False):
     """Route subprocess calls and extension-module calls of cspuz to ``peer``.
@@ -800,19 +819,23 @@ def installed_peer(peer, recorder=None, modules=EXT_MODULES, psutil=False):
     if psutil:
         sp._PSUTIL_AVAILABLE = True
         sp.psutil = FakePsutil()
-    saved_sub = sp.subprocess
+    import cspuz.backend.sugar_like as sl
+
     saved_mods = {n: _sys.modules.get(n, _MISSING) for n in EXT_MODULES}
     fake = FakeSubprocessModule(peer, recorder)
-    sp.subprocess = fake
+    saved_names = patch_subproc(sp, fake)
     for n in EXT_MODULES:
         if n in modules:
             _sys.modules[n] = fake_extension_module(n, peer, recorder)
         else:
             _sys.modules[n] = None  # import raises ImportError
+        if hasattr(sl, n):
+            saved_names.append((sl, n, getattr(sl, n)))
+            setattr(sl, n, _sys.modules[n])
     try:
         yield fake
     finally:
-        sp.subprocess = saved_sub
+        unpatch(saved_names)
         sp._PSUTIL_AVAILABLE = saved_ps[0]
         if saved_ps[1] is _MISSING:
             if hasattr(sp, "psutil"):
